@@ -61,8 +61,11 @@ def run_shard(prop, tier, seed, shard, nshards, only_case=None):
             rng = case_rng(seed, prop, i)
             try:
                 mod.run_case(i, rng, rec, tier, state)
-            except Exception:
-                rec.inconc("harness-error case %d: %s" % (i, traceback.format_exc(limit=6)[-1500:]))
+            except Exception as e:
+                if type(e).__name__ == "DegenerateInput":
+                    rec.note("oracle: degenerate input outside the generator margins, case not judged")
+                else:
+                    rec.inconc("harness-error case %d: %s" % (i, traceback.format_exc(limit=6)[-1500:]))
             rec.cases_run += 1
         rec.case = None
         if hasattr(mod, "finish"):
@@ -71,6 +74,8 @@ def run_shard(prop, tier, seed, shard, nshards, only_case=None):
 
         for key, phase, tb in _c.ERRORS:
             rec.inconc(f"monitor callback raised ({key} {phase}): {tb}")
+        if _c.DEGENERATE[0]:
+            rec.note("oracle: degenerate input outside the generator margins, monitored call not judged", _c.DEGENERATE[0])
     finally:
         fpobs.stop()
         lineobs.stop()
